@@ -301,6 +301,22 @@ theorem fetch_from_source_balanced : ∀ o : List Bool, (exec Gen.skel_fetch_fro
 theorem build_wheel_balanced : ∀ o : List Bool, (exec Gen.skel_build_wheel o []).2.1 = [] :=
   balanced_of_outcomes _ _ (by decide +kernel)
 
+/-- the PEP 517 metadata hook (`pyproject.py:_parse_from_prepared_metadata`): whatever the backend does — returns,
+raises `TypeError` (old signature) or anything else — the scratch directory is removed, the lock released, the
+process working directory put back and the stream / `sys.argv` substitutions undone -/
+theorem parse_from_prepared_metadata_balanced :
+    ∀ o : List Bool, (exec Gen.skel_parse_from_prepared_metadata o []).2.1 = [] :=
+  balanced_of_outcomes _ _ (by decide +kernel)
+
+theorem parse_from_wheel_balanced : ∀ o : List Bool, (exec Gen.skel_parse_from_wheel o []).2.1 = [] :=
+  balanced_of_outcomes _ _ (by decide +kernel)
+
+/-- what the skeleton of the hook tracks (regenerated names) -/
+theorem prepared_metadata_resources :
+    Gen.skelRes_parse_from_prepared_metadata =
+      ["UNTRANSLATABLE", "tmpdir:dest", "lock:LOCK", "cwd", "patch:sys.stdout", "patch:sys.stderr",
+       "patch:root_logger.setLevel", "patch:sys.argv", "open:meta_info"] := by decide
+
 /-- the substitution list the skeleton theorem speaks about is the one in the source: 28 members, no repeats -/
 theorem parse_setup_py_sites : Gen.patchSites_parse_setup_py.length = 28 ∧ Gen.patchSites_parse_setup_py.Nodup ∧
     Gen.patchSites_fetch_from_setup_py = ["os.chdir", "os.getcwd", "os.getcwdu", "os.path.abspath"] := by
